@@ -95,7 +95,7 @@ def main():
             shutil.copy(demo, os.path.join(out, os.path.basename(demo)))
             meta_out = {"id": sid, "property": prop_id, "summary": meta.get("summary", ""), "needs": meta.get("needs", ""), "files_changed": meta.get("files_changed", []),
                         "confirmed": {"what_i_ran": ran, "tests_still_pass": True, "demo_fails_with_change": True, "demo_passes_without": True, "base": sh(f"git -C {REPO} log --format=%h -1").stdout.strip()},
-                        "checks": caught, "caught_by": [p for p, v in caught.items() if v["exit"] == 1], "flagged_inconclusive_by": [p for p, v in caught.items() if v["exit"] == 2]}
+                        "checks": caught, "caught_by": [p for p, v in caught.items() if v["exit"] == 1 and v["violations"] > 0], "flagged_inconclusive_by": [p for p, v in caught.items() if v["exit"] == 2]}
             json.dump(meta_out, open(os.path.join(out, "meta.json"), "w"), indent=1)
             rows.append((sid, "caught by " + ",".join(meta_out["caught_by"]) if meta_out["caught_by"] else ("INCONCLUSIVE " + ",".join(meta_out["flagged_inconclusive_by"]) if meta_out["flagged_inconclusive_by"] else "MISSED"), caught.get(prop_id, {}).get("first", "")))
             print(rows[-1], flush=True)
